@@ -4,6 +4,11 @@ usage: seedcheck.py <worktree> <seed-id> <Cxx> [<Cxx> ...]   (add --keep to stor
 Steps: copy <worktree>/_seed; apply patch.diff to /repo; run the 193-test baseline; build hooks-on binary; run demo.sh against
 mutated and (after revert) unmutated binary; run the listed checks (quick) on the mutated tree; revert /repo; restore evidence."""
 import json, os, shutil, subprocess, sys
+import fcntl as _fcntl
+_lockf = open("/dev/shm/mscript-verif-repo.lock", "a+")
+_fcntl.flock(_lockf, _fcntl.LOCK_EX)      # held until this tool exits: /repo is patched in between
+import os as _os
+_os.environ["MSCRIPT_VERIF_LOCK_HELD"] = "1"
 args = [a for a in sys.argv[1:] if not a.startswith("--")]
 keep = "--keep" in sys.argv
 thorough = "--thorough" in sys.argv
